@@ -909,6 +909,44 @@ func (env *Env) elabCall(x ECall) (Val, error) {
 			return Val{T: app("Str", "schr", v.T), GoT: types.Typ[types.String]}, nil
 		}
 		return v, nil
+	case "fn": // a named library or package function used as a value: fn("unicode.IsSpace")
+		ts, ok := x.Args[0].(EStr)
+		if !ok {
+			return Val{}, fmt.Errorf("fn(\"pkg.Name\") needs a string")
+		}
+		f := P.findExternFn(ts.V)
+		if f == nil {
+			return Val{}, fmt.Errorf("fn(%q): no such function", ts.V)
+		}
+		return Val{T: fnValue(P, f), GoT: f.Signature}, nil
+	case "mk": // struct value: mk("T", f1, f2, ...) with one argument per field, in declaration order
+		ts, ok := x.Args[0].(EStr)
+		if !ok {
+			return Val{}, fmt.Errorf("mk(\"T\", fields...) needs a type string")
+		}
+		t, err := P.resolveType(env.pkg, ts.V)
+		if err != nil {
+			return Val{}, err
+		}
+		st, ok := t.Underlying().(*types.Struct)
+		if !ok || st.NumFields() != len(x.Args)-1 {
+			return Val{}, fmt.Errorf("mk(%q, ...): %s is not a struct with %d fields", ts.V, ts.V, len(x.Args)-1)
+		}
+		srt := P.sorts.sortOf(t)
+		si := P.sorts.structInfoOf(t)
+		var fs []Term
+		for i, a := range x.Args[1:] {
+			v, err := env.elab(a)
+			if err != nil {
+				return Val{}, err
+			}
+			v = coerceNil(v, si.fsorts[i])
+			if v.T.Sort != si.fsorts[i] {
+				return Val{}, fmt.Errorf("mk(%q, ...): field %d has sort %s, want %s", ts.V, i, v.T.Sort, si.fsorts[i])
+			}
+			fs = append(fs, v.T)
+		}
+		return Val{T: app(srt, si.ctor, fs...), GoT: t}, nil
 	case "unbox": // value stored in an interface: unbox(e, "T")
 		v, err := env.elab(x.Args[0])
 		if err != nil {
@@ -1033,6 +1071,19 @@ func (env *Env) elabCall(x ECall) (Val, error) {
 		}
 		h := env.st.getHeap(P, elemComp(u.Elem()), elemSort(P, u.Elem()))
 		return Val{T: app(fmt.Sprintf("(Array Int %s)", es), "select", h, app("Int", "s_arr", v.T)), GoT: types.NewArray(u.Elem(), 1<<40)}, nil
+	case "pos": // position of index k of slice s inside its backing array: the heap-independent term to trigger on
+		v, err := env.elab(x.Args[0])
+		if err != nil {
+			return Val{}, err
+		}
+		k, err := env.elab(x.Args[1])
+		if err != nil {
+			return Val{}, err
+		}
+		if v.T.Sort != "Slice" {
+			return Val{}, fmt.Errorf("pos() of non-slice")
+		}
+		return Val{T: eidx(v.T, k.T), GoT: mathInt}, nil
 	case "off":
 		v, err := env.elab(x.Args[0])
 		if err != nil {
